@@ -16,7 +16,7 @@ _EXTRACT = {
 SPEC = {
     "claimed": True,
     "gen": ["consts", "bitfields", "huffman"],
-    "theorems": ["C06_total6", "C06_total7", "C06_small_scratch_panics", "C06_views_in_bounds6", "C06_views_in_bounds7",
+    "theorems": ["C06_total6", "C06_total7", "C06_small_scratch_panics", "C06_other_entry_points", "C06_views_in_bounds6", "C06_views_in_bounds7",
                  "C06_chunks_total6", "C06_chunks_total7", "C06_accept_rewrite6", "C06_accept_rewrite7", "C06_accept_rewrite6_huffman", "C06_accept_rewrite7_huffman",
                  "C06_views_in_bounds_huffman",
                  "C06_K06_refuted", "C06_K06T_refuted", "C06_nonvacuous"],
